@@ -18,7 +18,7 @@ VERIF = os.path.dirname(os.path.abspath(__file__))
 sys.path.insert(0, VERIF)
 from vlib.props import PROPS  # noqa: E402
 from vlib.verus_runner import run_verus_unit  # noqa: E402
-from vlib.kani_runner import build_kani_unit, run_harnesses  # noqa: E402
+from vlib.kani_runner import build_kani_unit, run_harnesses, confirm_playback  # noqa: E402
 
 KNOWN = os.path.join(VERIF, 'known_findings.txt')
 
@@ -180,14 +180,20 @@ def main():
                 if k:
                     known_hits.append((obl, k))
                     continue
-                # obtain a concrete counterexample
-                run_harnesses(ku, [h], jobs=1, playback=True)
+                # obtain a concrete counterexample and replay it natively on the extracted real function text
+                pb = confirm_playback(ku, h)
+                if pb['confirmed'] is False:
+                    undecided.append(f'kani harness {ku.unit}::{h.name}: counterexample not confirmed by native replay (verifier-model imprecision)')
+                    continue
                 payload = dict(property=prop, unit=ku.unit, obligation=obl, verifier='kani+cbmc',
                                harness=h.name, contract_on=h.fn, failed_checks=h.failed_checks,
-                               counterexample_playback=h.playback, verifier_output=getattr(h, 'log_tail', '')[-2500:],
+                               counterexample_playback=pb['test'],
+                               replayed_on='extracted text of the real functions, built natively (cargo kani playback)',
+                               replay_confirmed=pb['confirmed'], replay_output=pb['output'][-1500:],
+                               verifier_output=getattr(h, 'log_tail', '')[-2500:],
                                rerun=f'./check.py {prop} --tier {tier}')
                 path = write_replay(prop, obl, payload)
-                violations.append((obl, path, h.playback is not None))
+                violations.append((obl, path, bool(pb['confirmed'])))
         units_ev.append(ev)
 
     # ---------------- Verus failures -> known finding / twin / violation
@@ -204,10 +210,14 @@ def main():
             cex = None
             stale = False
             for ku, h in twins:
-                run_harnesses(ku, [h], jobs=1, playback=True)
+                run_harnesses(ku, [h], jobs=1)
                 if h.status == 'failure':
-                    cex = (ku, h)
-                    break
+                    pb = confirm_playback(ku, h)
+                    h.playback = pb['test'] if pb['confirmed'] else None
+                    h.replay_output = pb['output'][-1500:]
+                    if pb['confirmed']:
+                        cex = (ku, h)
+                        break
                 if h.status == 'success' and h.kind == 'complete':
                     stale = True
             if cex is None and stale:
@@ -223,6 +233,8 @@ def main():
                 payload['counterexample_playback'] = h.playback
                 payload['twin_harness'] = f'{ku.unit}::{h.name}'
                 payload['twin_failed_checks'] = h.failed_checks
+                payload['replayed_on'] = 'extracted text of the real functions, built natively (cargo kani playback)'
+                payload['replay_output'] = getattr(h, 'replay_output', '')
             else:
                 payload['counterexample'] = None
                 payload['note'] = ('Verus gives no counterexample and no Kani twin produced one: '
